@@ -93,6 +93,14 @@ func genPipe(c *Config, r *rand.Rand) {
 			p := ps[r.IntN(len(ps))]
 			p.SplitPct = pick(r, 10, 30, 100)
 			p.Workers = 1
+			// a second splitting stage: pieces of an already split record are split again
+			if len(ps) > 1 && (r.IntN(3) == 0 || (c.Focus == "C08" && r.IntN(2) == 0)) {
+				q := ps[r.IntN(len(ps))]
+				if q != p {
+					q.SplitPct = pick(r, 30, 60, 100)
+					q.Workers = 1
+				}
+			}
 		}
 	}
 	if c.Engine == "v2" && r.IntN(3) == 0 {
